@@ -29,6 +29,11 @@ type GenOpts struct {
 
 var names = []string{"a", "b", "c", "d"}
 
+// oddNames are legal entry names that careless path handling mistreats: consecutive dots (not a ".." element),
+// leading dot, trailing dot, blanks, non-ASCII, shell/URL metacharacters. Drawn rarely: the tiny alphabet above
+// is what makes paths collide.
+var oddNames = []string{"a..b", "...", ".h", "a b", "\u00fc", "x.y", "-", "~t", "a.", "c#", "%41"}
+
 var SizeClasses = []int{0, 1, 2, 100, BS - 1, BS, BS + 1, 2*BS - 1, 2 * BS, 2*BS + 1, 3 * BS, 5*BS + 17}
 
 func GenPath(t *rapid.T, label string) string {
@@ -36,6 +41,9 @@ func GenPath(t *rapid.T, label string) string {
 	parts := make([]string, depth)
 	for i := range parts {
 		parts[i] = rapid.SampledFrom(names).Draw(t, label+"-seg")
+		if rapid.IntRange(0, 15).Draw(t, label+"-odd") == 0 {
+			parts[i] = rapid.SampledFrom(oddNames).Draw(t, label+"-oddname")
+		}
 	}
 	return strings.Join(parts, "/")
 }
